@@ -4,6 +4,10 @@ CLAIMED = {
    technique='TLA+ state machine (ReplayQueue.tla, ShardedQueue.tla) model-checked with TLC; state graph replayed edge-by-edge into the real buffers; recorded histories validated by trace specifications',
    text='TLC checks the queue design exhaustively (all op sequences to the depth bound, and all histories of any length in the age-normalised closure configs); every transition of the bounded graph is executed on the real Queue/UniformSamplingQueue/PmapWrapper/PjitWrapper and random long histories are validated as behaviours of the spec. The property is about discrete state over histories, which is what model checking decides.',
    note='Trusted: TLC, the harness decode of record ids from payloads, the edge-for-path argument (impl state compared with spec state after each edge). Bounds: Cap<=3/Batch<=2/depth 6 quick; Cap<=5/Batch<=4/depth 7 thorough; shards 2-4 via forced host devices.'),
+ 'C15': dict(level='model_checking', design='DESIGN.md §5 C15',
+   technique='TLA+ state machine of the wrapper stack with a ghost episode ledger (EpisodeWrappers.tla) model-checked with TLC over all schedules; recorded per-member histories of the real wrappers, generate_unroll and Evaluator validated by EpisodeWrappersTrace.tla',
+   text='TLC checks nine ledger invariants over every termination schedule x episode_length x action_repeat within the bounds; the real wrapper stacks (training.wrap order, envs.create order, EvalWrapper, DomainRandomizationVmapWrapper), acting.generate_unroll and acting.Evaluator run on a scripted environment whose batch members carry all schedules, and every member history must be a behaviour of the spec (all State fields compared after every step).',
+   note='Trusted: TLC; the scripted Env (a real brax Env subclass) and its integer decoding; brax.v1 stubbed for import. Bounds: schedules 2^6, L<=4, R<=2 quick; 2^8, L<=6, R<=3 thorough; plus sampled long schedules with random actions.'),
 }
 NA = {
  'C03': 'property is about derivatives of a floating-point program vs. a finite-difference limit: no state, history or exact-arithmetic rendering for a TLA+ specification (DESIGN.md §6)',
